@@ -38,6 +38,7 @@ type TxnSite struct {
 	HasIf    bool
 	Cmps     []Cmp
 	Commit   *ssa.Call
+	If       *ssa.Call // the If(...) call closest to the Then, when visible in this function
 }
 
 // keyAtoms: what a key expression is made of.
@@ -284,6 +285,9 @@ func (P *Prog) txnOrigin(recv ssa.Value, site *TxnSite, depth int, seen map[ssa.
 			switch cc.Method.Name() {
 			case "If":
 				site.HasIf = true
+				if site.If == nil {
+					site.If = x
+				}
 				if len(cc.Args) == 1 {
 					elems, unknown := sliceElems(cc.Args[0], map[ssa.Value]bool{})
 					for _, e := range elems {
@@ -545,4 +549,77 @@ func (s *TxnSite) committedEvents() []Ev {
 		return derivesFrom(cond, func(v ssa.Value) bool { return v == ssa.Value(commit) }, 5)
 	}}
 	return []Ev{okE, succ}
+}
+
+// sliceAlternatives: the possible element lists of a slice value, one per
+// control-flow alternative (phi edges are alternatives, append is a product).
+// Bounded to 16 alternatives.
+func sliceAlternatives(v ssa.Value, depth int) [][]ssa.Value {
+	if depth < 0 || v == nil {
+		return [][]ssa.Value{nil}
+	}
+	switch x := v.(type) {
+	case *ssa.Const:
+		return [][]ssa.Value{nil}
+	case *ssa.Slice:
+		return sliceAlternatives(x.X, depth-1)
+	case *ssa.Alloc:
+		e, _ := sliceElems(x, map[ssa.Value]bool{})
+		return [][]ssa.Value{e}
+	case *ssa.MakeSlice:
+		return [][]ssa.Value{nil}
+	case *ssa.Phi:
+		var out [][]ssa.Value
+		for _, e := range x.Edges {
+			if e == ssa.Value(x) {
+				continue
+			}
+			out = append(out, sliceAlternatives(e, depth-1)...)
+			if len(out) > 16 {
+				return out[:16]
+			}
+		}
+		return out
+	case *ssa.Call:
+		if b, ok := x.Call.Value.(*ssa.Builtin); ok && b.Name() == "append" && len(x.Call.Args) == 2 {
+			as := sliceAlternatives(x.Call.Args[0], depth-1)
+			bs := sliceAlternatives(x.Call.Args[1], depth-1)
+			var out [][]ssa.Value
+			for _, a := range as {
+				for _, b2 := range bs {
+					out = append(out, append(append([]ssa.Value{}, a...), b2...))
+					if len(out) > 16 {
+						return out
+					}
+				}
+			}
+			return out
+		}
+	}
+	return [][]ssa.Value{{v}} // opaque: the value itself stands for unknown content
+}
+
+// valueAlternatives expands phis of a scalar value.
+func valueAlternatives(v ssa.Value, depth int) []ssa.Value {
+	if phi, ok := v.(*ssa.Phi); ok && depth > 0 {
+		var out []ssa.Value
+		for _, e := range phi.Edges {
+			out = append(out, valueAlternatives(e, depth-1)...)
+		}
+		return out
+	}
+	if u, ok := v.(*ssa.UnOp); ok && u.Op == token.MUL && depth > 0 {
+		if a, ok := u.X.(*ssa.Alloc); ok {
+			var out []ssa.Value
+			for _, r := range *a.Referrers() {
+				if st, ok := r.(*ssa.Store); ok && st.Addr == a {
+					out = append(out, valueAlternatives(st.Val, depth-1)...)
+				}
+			}
+			if len(out) > 0 {
+				return out
+			}
+		}
+	}
+	return []ssa.Value{v}
 }
